@@ -21,6 +21,7 @@ import MptModel.Lemmas.HeapHist
 import MptModel.Lemmas.TokHist
 import MptModel.Lemmas.TokXX
 import MptModel.Impl.HeapXX
+import MptModel.Impl.Refs
 import MptModel.Spec.Tokens
 namespace Mpt.C05
 open Mpt Mpt.Heap
@@ -275,5 +276,31 @@ theorem cxx_exactly_once (s : State) (live : Tokens.Live) (h n : Nat) (k : XKind
   | fault w => exact ok
   | ok s' v => exact ⟨Step.inv ok, fun small => Step.replay ok ti small⟩
   | fail s' e => exact ⟨Step.inv ok, fun small => Step.replay ok ti small⟩
+
+/-! ### buffers of references (arrays of arrays, metatype references; model `Impl/Refs.lean`)
+
+  No general theorem here: the model is tied to array_traits.c / meta_reference_traits.c / array_clone.c by the third
+  part of the correspondence (harness/drv_refs.c), where the harness checks after every operation that the reference
+  counts of buffers and instances equal the references that exist and that nothing is released twice.  Instances: -/
+
+/-- `mpt_array_clone(&P, &P[0])` with `P -> B -> C(3 tokens)` and `P` the only owner: the handle gets `B`, `P`'s
+    buffer is destroyed, `B` and the tokens of `C` stay alive, nothing is finalised (the new reference is taken before
+    the old buffer is released) -/
+example :
+    (let s : Refs.State := { bufs := [some { ref := 1, kind := .tok, elems := [.tok 1, .tok 2, .tok 3] },
+                                      some { ref := 1, kind := .arr, elems := [.arr (some 0)] },
+                                      some { ref := 1, kind := .arr, elems := [.arr (some 1)] }],
+                             hs := [some 2], next := 4 }
+     let r := Refs.arrayClone s 0 (some 1) false
+     (r.2, r.1.handle 0, (r.1.buf? 2).isSome, (r.1.buf? 1).map (·.ref), (r.1.buf? 0).map (·.ref), r.1.log)) =
+      (3, some 1, false, some 1, some 1, []) := by decide
+
+/-- copying references to a sharable and a single-owner instance: the sharable one gets a second reference, the
+    single-owner one refuses and the copy holds an empty element instead (it is released once, by its only owner) -/
+example :
+    (let s : Refs.State := { objs := [{ refs := 1, sharable := true }, { refs := 1, sharable := false }] }
+     let r := Refs.copyElems s [.mref (some 1), .mref (some 2)]
+     (r.2, r.1.objs.map (·.refs), r.1.log)) =
+      ([.mref (some 1), .mref none], [2, 1], [.addref 1, .refuse 2]) := by decide
 
 end Mpt.C05
